@@ -51,14 +51,25 @@ theorem C04_partial_write_inside (v : Nat) (f : Val → Val) (isSet : Bool) (s :
   rw [C08.write_inside_run v f isSet s vc hv hst]
 
 /-- a var write outside stabilise does not panic in a release build, for a live handle whose watch
-node is either not needed, already queued, or at a height the heap has a bucket for -/
+node is either invalidated (D14), not needed, already queued, or at a height the heap has a bucket
+for -/
 theorem C04_partial_write_outside (v : Nat) (f : Val → Val) (isSet : Bool) (s : State) (vc : VarCell)
     (hv : s.vars[v]? = some vc) (hst : s.status ≠ .stabilising)
     (hl : vc.linked = true) (hd : s.cfg.debug = false)
-    (hq : s.isNecessary vc.node = false ∨ (s.nodeD vc.node).inRch = true ∨
+    (hq : (s.nodeD vc.node).valid = false ∨ s.isNecessary vc.node = false ∨
+      (s.nodeD vc.node).inRch = true ∨
       (0 ≤ (s.nodeD vc.node).height ∧ (s.nodeD vc.node).height ≤ s.rch.maxAllowed)) :
     ((writeVar v f isSet).run.run s).1 = .ok vc.value :=
   C08.write_outside_no_panic v f isSet s vc hv hst hl hd hq
+
+/-- D14: a var write outside stabilise through a live handle whose watch node has been invalidated
+does not panic in EITHER build profile (no hypothesis on `s.cfg.debug`) -/
+theorem C04_partial_write_invalid_watch (v : Nat) (f : Val → Val) (isSet : Bool) (s : State)
+    (vc : VarCell) (hv : s.vars[v]? = some vc) (hst : s.status ≠ .stabilising)
+    (hl : vc.linked = true) (hinv : (s.nodeD vc.node).valid = false) :
+    ((writeVar v f isSet).run.run s).1 = .ok vc.value := by
+  obtain ⟨s', h, -⟩ := C08.write_outside_invalid_watch v f isSet s vc hv hst hl hinv
+  rw [h]
 
 /-- node construction never panics -/
 theorem C04_partial_create (s : State) (kind : Kind) (scope : Scope) (cutoff : CutoffK) :
